@@ -113,6 +113,11 @@ pub fn blake_hex(data: &[u8]) -> String {
 // what a user holding a shorter SRS file has.
 // ---------------------------------------------------------------------------
 
+/// Smallest degree a fresh SRS setup is made for (larger requests grow it).
+/// The libFuzzer target lowers it: an instrumented 2^10 setup costs more than
+/// its per-input time limit.
+pub static PP_MIN_SETUP: AtomicU64 = AtomicU64::new(1 << 10);
+
 static PP_CACHE: OnceLock<Mutex<HashMap<usize, Arc<PublicParameters>>>> = OnceLock::new();
 static PP_BIG: OnceLock<Mutex<Option<(usize, Arc<PublicParameters>, Arc<Vec<u8>>)>>> =
     OnceLock::new();
@@ -131,7 +136,7 @@ pub fn pp(degree: usize) -> Arc<PublicParameters> {
         None => true,
     };
     if need_new {
-        let d = degree.next_power_of_two().max(1 << 10);
+        let d = degree.next_power_of_two().max(PP_MIN_SETUP.load(Ordering::Relaxed) as usize);
         let mut rng = crate::mon::rng::fixed_rng(0xC0FFEE);
         let p = PublicParameters::setup(d, &mut rng).expect("srs setup");
         let raw = p.to_raw_var_bytes();
